@@ -427,17 +427,25 @@ func runNQuads(c *Ctx) *Violation {
 	for k := 0; k <= len(doc); k++ {
 		k := k
 		torn := doc[:k]
-		for mode := 0; mode < 2; mode++ {
+		for mode := 0; mode < 3; mode++ {
 			mode := mode
 			plan := simio.NoFaults()
 			kindName := "eof@k"
-			if mode == 0 {
+			switch mode {
+			case 0:
 				plan.EOFAt = k
 				plan.EOFWithData = true
-			} else {
+			case 1:
 				kindName = "err@k.read"
 				plan.ErrAt = k
 				plan.ErrShort = k%2 == 1
+			default:
+				// the error is reported once (with or without data), then the
+				// device pretends the stream ended: it must not be swallowed
+				kindName = "err@k.read-transient"
+				plan.ErrAt = k
+				plan.ErrShort = k%2 == 0
+				plan.ErrTransient = true
 			}
 			plan.MaxChunk = []int{0, 5, 1}[(k/2)%3]
 			plan.ZeroReads = k%5 == 4
@@ -459,7 +467,7 @@ func runNQuads(c *Ctx) *Violation {
 				got, term := rdfDrain(dec, maxCalls)
 				c.Case(kindName, k < len(doc), hd, uint64(k))
 				c.Oracle("stream-cut")
-				if d := rdfCompare(tref, got, mode == 1); d != "" {
+				if d := rdfCompare(tref, got, mode >= 1); d != "" {
 					return viol("nquads/Decoder/"+kindName, "stream cut after %d of %d bytes: %s\ndelivered bytes: %q", k, len(doc), d, torn)
 				}
 				if mode == 0 {
@@ -468,7 +476,10 @@ func runNQuads(c *Ctx) *Violation {
 					}
 				} else {
 					if !errors.Is(term, simio.ErrInjected) {
-						return viol("nquads/Decoder/read-error-lost", "reader failed after %d of %d bytes: Unmarshal finally returns %v, want the reader's error\ndelivered bytes: %q", k, len(doc), term, torn)
+						return viol("nquads/Decoder/read-error-lost", "reader failed (%s) after %d of %d bytes: Unmarshal finally returns %v, want the reader's error\ndelivered bytes: %q", kindName, k, len(doc), term, torn)
+					}
+					if mode == 2 {
+						return nil // after a transient error the decoder's later behaviour is not constrained
 					}
 					if len(got) < len(tref) {
 						c.Probe("statements_not_delivered_before_io_error", len(tref)-len(got))
